@@ -1,6 +1,7 @@
 (* plot_utils.clip_code / clip_segment (Cohen-Sutherland), exact arithmetic: one boundary per pass in the
    order left, right, top, bottom; the endpoint with a non-zero code is moved, endpoint 1 first; accept and
-   reject are tested before the "iterations > 3" failsafe; divisions are guarded so that a division by zero
+   reject are tested before the "iterations > 3" failsafe; the new vertex is interpolated with the bounded ratio first
+   (the tree after 764be11); divisions are guarded so that a division by zero
    is an explicit outcome. *)
 From Plotink Require Import Base.Prelude.
 Open Scope Q_scope.
@@ -24,16 +25,16 @@ Definition pass (xmin xmax ymin ymax : Q) (iterations : nat) (s : st) : exit + s
   let c := if first then c1 else c2 in
   let dx := x2 s - x1 s in let dy := y2 s - y1 s in
   if cL c then (if Qeqb dx 0 then inl DivZero else
-       let xn := xmin in let yn := (dy / dx) * (xmin - x1 s) + y1 s in
+       let xn := xmin in let yn := dy * ((xmin - x1 s) / dx) + y1 s in
        inr (if first then mkst xn yn (x2 s) (y2 s) else mkst (x1 s) (y1 s) xn yn))
   else if cR c then (if Qeqb dx 0 then inl DivZero else
-       let xn := xmax in let yn := (dy / dx) * (xmax - x1 s) + y1 s in
+       let xn := xmax in let yn := dy * ((xmax - x1 s) / dx) + y1 s in
        inr (if first then mkst xn yn (x2 s) (y2 s) else mkst (x1 s) (y1 s) xn yn))
   else if cT c then (if Qeqb dy 0 then inl DivZero else
-       let yn := ymin in let xn := (dx / dy) * (ymin - y1 s) + x1 s in
+       let yn := ymin in let xn := dx * ((ymin - y1 s) / dy) + x1 s in
        inr (if first then mkst xn yn (x2 s) (y2 s) else mkst (x1 s) (y1 s) xn yn))
   else (if Qeqb dy 0 then inl DivZero else
-       let yn := ymax in let xn := (dx / dy) * (ymax - y1 s) + x1 s in
+       let yn := ymax in let xn := dx * ((ymax - y1 s) / dy) + x1 s in
        inr (if first then mkst xn yn (x2 s) (y2 s) else mkst (x1 s) (y1 s) xn yn)).
 
 Fixpoint loop (fuel : nat) (xmin xmax ymin ymax : Q) (iterations : nat) (s : st) : exit * st :=
